@@ -673,6 +673,36 @@ def empty_literals_as_calls(sources: Dict[str, str]) -> Dict[str, str]:
     return out
 
 
+def hoist_string_keys(sources: Dict[str, str]) -> Dict[str, str]:
+    """String literals used as subscript keys or as the key argument of .get / .pop / .setdefault become module-level
+    constants (`lib["public.skipExportGlyphs"]` -> `lib[_KEY_3]`)."""
+    out = {}
+    for p, s in sources.items():
+        tree = ast.parse(s)
+        names: Dict[str, str] = {}
+
+        def const_for(v):
+            if v not in names:
+                names[v] = f"_KEY_{len(names)}"
+            return ast.Name(id=names[v], ctx=ast.Load())
+        for n in ast.walk(tree):
+            if isinstance(n, ast.Subscript) and isinstance(n.slice, ast.Constant) and isinstance(n.slice.value, str) and len(n.slice.value) > 3:
+                n.slice = const_for(n.slice.value)
+            elif isinstance(n, ast.Call) and isinstance(n.func, ast.Attribute) and n.func.attr in ("get", "pop", "setdefault") and n.args \
+                    and isinstance(n.args[0], ast.Constant) and isinstance(n.args[0].value, str) and len(n.args[0].value) > 3:
+                n.args[0] = const_for(n.args[0].value)
+        if names:
+            idx = 0
+            for i, st in enumerate(tree.body):
+                if isinstance(st, (ast.Import, ast.ImportFrom)) or (i == 0 and isinstance(st, ast.Expr) and isinstance(st.value, ast.Constant)):
+                    idx = i + 1
+            defs = [ast.Assign(targets=[ast.Name(id=nm, ctx=ast.Store())], value=ast.Constant(value=v)) for v, nm in names.items()]
+            tree.body[idx:idx] = defs
+        ast.fix_missing_locations(tree)
+        out[p] = ast.unparse(tree)
+    return out
+
+
 def rename_all_locals(sources: Dict[str, str]) -> Dict[str, str]:
     out = {}
     for p, s in sources.items():
@@ -752,6 +782,8 @@ def _worker(args):
             overlay = merge_nested_ifs(sources)
         elif m.old == "<empty-literals-as-calls>":
             overlay = empty_literals_as_calls(sources)
+        elif m.old == "<hoist-string-keys>":
+            overlay = hoist_string_keys(sources)
         elif m.old == "<keywords-at-call-sites>":
             overlay = keywords_at_call_sites(sources)
         elif m.old == "<swap-if-else>":
@@ -804,6 +836,7 @@ GENERIC = [
     M("operands of every == / != comparison swapped", "", None, "<swap-equality-operands>", "", kind="equiv"),
     M("nested ifs merged into `and` and two-operand `and` guards split into nested ifs", "", None, "<merge-nested-ifs>", "", kind="equiv"),
     M("empty displays written as constructor calls ([] -> list(), {} -> dict())", "", None, "<empty-literals-as-calls>", "", kind="equiv"),
+    M("string literals used as keys hoisted into module-level constants", "", None, "<hoist-string-keys>", "", kind="equiv"),
     M("methods of every class in reverse source order", "", None, "<reverse-methods>", "", kind="equiv"),
     M("swap the branches of every plain if/else under the negated test", "", None, "<swap-if-else>", "", kind="equiv"),
     M("annotate every local that is assigned once (x = v  ->  x: object = v)", "", None, "<annotate-single-assignments>", "", kind="equiv"),
